@@ -155,10 +155,19 @@ def run_check(prop, tier):
         def run(tp, rparams=rparams):
             return runner.execute(prop, workload, replay=tp, params=rparams)
 
+        # workload-suggested reduction of the parameters (e.g. only the crash
+        # site that failed instead of enumerating all of them)
+        red = (r0["violation"].get("details") or {}).get("reduce")
+        if red:
+            trial = dict(rparams)
+            trial.update(red)
+            o = runner.execute(prop, workload, replay=r0["tape"], params=trial)
+            if o["violation"] is not None and o["violation"]["sig"] == sig:
+                rparams.update(red)
         best, final, nex = shrink.shrink(
             run, r0["tape"], sig,
-            max_execs=int(os.environ.get("XSIM_SHRINK_EXECS", 500)),
-            max_wall=float(os.environ.get("XSIM_SHRINK_WALL", 90)))
+            max_execs=int(os.environ.get("XSIM_SHRINK_EXECS", spec.get("shrink_execs", 500))),
+            max_wall=float(os.environ.get("XSIM_SHRINK_WALL", spec.get("shrink_wall", 90))))
         rp = {
             "property": prop, "tier": tier, "root_seed": seed,
             "run_index": r0["i"], "derived_seed": r0["seed"],
